@@ -1017,6 +1017,7 @@ impl<'a> Runner<'a> {
     let mut probe_stale: BTreeSet<Tid> = BTreeSet::new();
     let mut sig_violations: Vec<Violation> = vec![];
     let mut coarse_ignored = false;
+    let mut zst_checked = false;
     let mut order_candidates: Vec<(Tid, Tid)> = vec![];
     // Tasks whose record at the start of the session is an aborted (output-less, partial) execution. A bottom-up build
     // can both schedule such a task through its leftover dependencies and execute it as a "new" task when it is
@@ -1302,6 +1303,7 @@ impl<'a> Runner<'a> {
             _ => unreachable!(),
           };
           if let Verdict::Error(code) = verdict { errors_seen.push(code); }
+          if let Ev::RCheck { chk, .. } = ev { if chk.is_zst() { zst_checked = true; } }
           if let Ev::RCheck { chk, verdict: Verdict::Consistent, now, serial, .. } = ev {
             if !chk.is_exact() { if let Some(seen) = self.stamp_seen.get(serial) { if *seen != now.val { coarse_ignored = true; } } }
           }
@@ -1452,6 +1454,7 @@ impl<'a> Runner<'a> {
     if let SessionKind::BottomUp { pre_require, .. } = kind { if !pre_require.is_empty() && slice.iter().any(|e| matches!(e, Ev::ExecStart { bottom_up: true, .. })) && slice.iter().any(|e| matches!(e, Ev::ExecStart { bottom_up: false, .. })) { self.stats.hit("probe_session_executed_top_down_and_bottom_up"); } }
     for (i, n) in fam_access.iter().enumerate() { self.stats.add(["access_sim_RA", "access_sim_RB", "access_map_MK2", "access_map_MK3", "access_file"][i], *n); }
     if coarse_ignored { self.stats.hit("probe_coarse_ignored_change"); }
+    if zst_checked { self.stats.hit("probe_zero_sized_stamp_checked"); }
     for (i, name) in ["probe_bu_queue_ge3", "probe_bu_nested_execution_of_scheduled_task", "probe_bu_new_task_executed_nested", "probe_dependency_set_changed", "probe_generated_resource_repaired", "probe_reserved_edge_after_abort", "observed_bu_double_execution_of_aborted_task"].iter().enumerate() { if probes[i] { self.stats.hit(name); } }
     if !executed.is_empty() { self.stats.add("executions", exec_count.iter().map(|c| *c as u64).sum()); }
     self.trace = trace;
